@@ -122,6 +122,40 @@ def check(case) -> list[Fail]:
                 fails.append(Fail("load", "function:after-an-early-attempt", f"LoadConst of {got3} for a constant of type {want_t}"[:300]))
         except Exception as e:  # noqa: BLE001
             fails.append(Fail("load", "function:constant-lost-after-an-early-attempt", f"{type(e).__name__}: {e}"[:200]))
+    # a function value built from a definition with declared outputs, after a refused set_outputs: the constant is
+    # either not yet a value (body unfinished) or its body returns what the constant's type says
+    if k == "function" and not v.get("reqs") and [ref.enc_type(t) for t in v["i"]] != [ref.enc_type(t) for t in v["o"]]:
+        from hugr.build.dfg import Function
+        from hugr.ops import IncompleteOp
+
+        fb = Function("f", [mk_type(t) for t in v["i"]])
+        fb.declare_outputs([mk_type(t) for t in v["o"]])
+        try:
+            fb.set_outputs(*fb.inputs())
+            refused = False
+        except ValueError:
+            refused = True
+        if refused:  # (an acceptance is C13's business)
+            fc = val.Function(fb.hugr)
+            d4 = Dfg()
+            try:
+                d4.set_outputs(d4.load(fc))
+                doc = json.loads(d4.hugr.to_json())
+            except IncompleteOp:
+                doc = None
+            except Exception as e:  # noqa: BLE001
+                doc = None
+                fails.append(Fail("load", "function:after-refused-outputs-wrong-error", f"{type(e).__name__}: {e}"[:200]))
+            if doc is not None:
+                cn = next(n for n in doc["nodes"] if n["op"] == "Const")
+                bd = cn["v"]["hugr"]
+                if isinstance(bd, str):
+                    bd = json.loads(bd)
+                outs_ = next(n for n in bd["nodes"] if n["op"] == "Output")["types"]
+                sig_ = bd["nodes"][0]["signature"]["body"]["output"]
+                ld = next(n for n in doc["nodes"] if n["op"] == "LoadConstant")["datatype"]["output"]
+                if not (outs_ == sig_ == ld):
+                    fails.append(Fail("function-body", "after-refused-outputs", f"body returns {outs_}, definition says {sig_}, loaded as {ld}"[:300]))
     # Left / Right compute their type from the values given: the list the caller passed stays the caller's
     if k in ("left", "right"):
         mine = [mk_value(u) for u in v["vs"]]
